@@ -70,7 +70,7 @@ Fixpoint merge_rec (fuel : nat) (n : nat) (g : sodg) (s : sodg) (left right : na
 Fixpoint dedup_keys (m : mapping) : list nat :=
   match m with
   | [] => []
-  | (k, _) :: t => if mem k (dedup_keys t) then dedup_keys t else k :: dedup_keys t
+  | (k, _) :: t => let r := dedup_keys t in if mem k r then r else k :: r
   end.
 
 (** [merge(g, left, right)]: [None] is [Ok(())], [Some missed] is the [Err]
